@@ -45,7 +45,17 @@ def factories():
             return E.VariableExpression("abc"[i % 3])
         return E.MathExpression(None, l, r)
 
-    return {"raw": raw, "expr": expr}
+    def dup(l, r, i):
+        # node ids are NOT unique in real trees: clone() copies them and rules insert several
+        # clones of one term
+        return BinaryTreeNode(l, r, None, f"i{i % 2}")
+
+    def same(l, r, i):
+        n = E.MathExpression(None, l, r)
+        n.id = "same"
+        return n
+
+    return {"raw": raw, "expr": expr, "dup-ids": dup, "same-id": same}
 
 
 def drive(rec, s, fac):
@@ -93,8 +103,19 @@ def run(rec, cfg):
     from mathy_core.rules import AssociativeSwapRule
 
     rule = AssociativeSwapRule()
-    texts = ["(a + b) + c", "a + (b + c)", "((a + b) + c) + d = e", "x * (y * z) * w", "2 * (a * b) + (c + (d + e)) + f",
+    texts = ["2x + 2x + 2x", "(a + b) + (a + b)", "a + (b + c)", "((a + b) + c) + d = e", "x * (y * z) * w", "2 * (a * b) + (c + (d + e)) + f",
              "(p + q) + (r + s)", "-((a + b) + c)", "sgn((a * b) * c)", "4(x + (y + z))", "(a + (b + (c + d))) * ((e * f) * g)"]
+    # trees that contain clones of one term (equal ids on siblings)
+    from mathy_core import expressions as E
+
+    for k in range(3):
+        t1 = ExpressionParser().parse(["2x", "a + b", "x * y"][k])
+        tree = E.AddExpression(E.AddExpression(t1, t1.clone()), E.AddExpression(t1.clone(), t1.clone())) if k != 2 else E.MultiplyExpression(E.MultiplyExpression(t1, t1.clone()), t1.clone())
+        n_nodes = len(S.nodes_inorder(tree))
+        for i in range(n_nodes):
+            c = tree.clone()
+            S.nodes_inorder(c)[i].rotate()
+            rec.arm("rotate:cloned-subterms")
     for t in texts:
         n_nodes = len(ExpressionParser().parse(t).to_list())
         for i in range(n_nodes):
